@@ -552,4 +552,166 @@ theorem subgraph_ok (d : Desc) (m : ModelT) (codes : List Code) (k : Nat) (ps : 
   rw [e0, i1', o1', hR2, e3, e4, e5]
   rfl
 
+
+/-! ## all subgraphs: the facts, from `write_facts` -/
+
+theorem prepOp_info (ts : List TensorD) (op : OpD) (p : POp) (h : prepOp ts op = .ok p) :
+    p.info.tableOk = true ∧ (p.ignored = false → p.info.inv.isSome = true) := by
+  refine ⟨?_, (prepOp_ok ts op p h).2.2.2.2.2.2.2.1⟩
+  unfold prepOp at h
+  obtain ⟨info, h1, h⟩ := bind_ok h
+  obtain ⟨in1, h2, h⟩ := bind_ok h
+  obtain ⟨in2, h3, h⟩ := bind_ok h
+  simp only [pure, Except.pure, Except.ok.injEq] at h
+  subst h
+  unfold lookupOpE at h1
+  cases hx : lookupOp op.type with
+  | none => simp [hx, throw, throwThe, MonadExceptOf.throw] at h1
+  | some i =>
+    simp [hx, pure, Except.pure] at h1
+    subst h1
+    exact (lookupOp_tableOk _ _ hx).1
+
+theorem prepSub_info (ts : List TensorD) (sg : SubgraphD) (ps : PSub) (h : prepSub ts sg = .ok ps) :
+    ∀ p ∈ ps.ops, p.info.tableOk = true ∧ (p.ignored = false → p.info.inv.isSome = true) := by
+  obtain ⟨_, hl, hf⟩ := prepSub_ok ts sg ps h
+  intro p hp
+  obtain ⟨j, hj⟩ := List.getElem?_of_mem hp
+  have hjl : j < sg.ops.length := by rw [← hl]; exact (List.getElem?_eq_some_iff.mp hj).1
+  obtain ⟨p', hp', hpo⟩ := hf j _ (List.getElem?_eq_getElem hjl)
+  rw [hj] at hp'
+  obtain rfl := Option.some.inj hp'
+  exact prepOp_info ts _ _ hpo
+
+theorem subs_info (d : Desc) (subs : List PSub) (h : (subgraphsToWrite d).mapM (prepSub d.tensors) = .ok subs) :
+    ∀ ps ∈ subs, ∀ p ∈ ps.ops, p.info.tableOk = true ∧ (p.ignored = false → p.info.inv.isSome = true) := by
+  obtain ⟨hl, hf⟩ := mapM_ok _ _ _ h
+  intro ps hps
+  obtain ⟨k, hk⟩ := List.getElem?_of_mem hps
+  have hkl : k < (subgraphsToWrite d).length := by rw [← hl]; exact (List.getElem?_eq_some_iff.mp hk).1
+  obtain ⟨ps', hps', hpo⟩ := hf k _ (List.getElem?_eq_getElem hkl)
+  rw [hk] at hps'
+  obtain rfl := Option.some.inj hps'
+  exact prepSub_info _ _ _ hpo
+
+theorem write_sgFacts (d : Desc) (enum : List Code) (m : ModelT) (h : writeWith d enum = .ok m) :
+    ∃ subs, (subgraphsToWrite d).mapM (prepSub d.tensors) = .ok subs ∧ m.subgraphs.length = subs.length ∧
+      ∀ (k : Nat) ps sg, subs[k]? = some ps → m.subgraphs[k]? = some sg → SgFacts d m (sortCodes enum) ps sg := by
+  obtain ⟨subs, opcodes, st, metas, h1, h2, h3, _, hm, acc, hl⟩ := write_facts d enum m h
+  refine ⟨subs, h1, hl, ?_⟩
+  intro k ps sg hk hs
+  have hloc := subgraphs_local d.tensors (sortCodes enum) subs st0 m.subgraphs st h3
+  have hk' : k < subs.length := (List.getElem?_eq_some_iff.mp hk).1
+  have hs' : k < m.subgraphs.length := (List.getElem?_eq_some_iff.mp hs).1
+  have hL := (List.forall₂_iff_get.mp hloc).2 k hk' hs'
+  have e1 : subs.get ⟨k, hk'⟩ = ps := by
+    have := (List.getElem?_eq_some_iff.mp hk).2; simpa using this
+  have e2 : m.subgraphs.get ⟨k, hs'⟩ = sg := by
+    have := (List.getElem?_eq_some_iff.mp hs).2; simpa using this
+  rw [e1, e2] at hL
+  have hmap : (subs.map (sgAll d.tensors))[k]? = some (sgAll d.tensors ps) := by simp [hk]
+  obtain ⟨tl, tf⟩ := acc.tensors k _ sg hmap hs
+  refine ⟨hL, tl, ?_, ?_, subs_info d subs h1 ps (List.mem_of_getElem? hk)⟩
+  · intro i g hig
+    obtain ⟨td, tt, a1, a2, a3, _, a5⟩ := tf i g hig
+    refine ⟨td, tt, a1, a2, a3, ?_⟩
+    rw [hm]
+    exact assemble_buffers_get d opcodes m.subgraphs st metas _ _ a5
+  · intro i c hc
+    obtain ⟨_, cf⟩ := mapM_ok _ _ _ h2
+    obtain ⟨oc, oc1, oc2⟩ := cf i c hc
+    exact ⟨oc, by rw [hm]; exact oc1, oc2⟩
+
+
+/-! ## the domain, executable -/
+
+def sgDomainB (ps : PSub) : Bool :=
+  (specOuts2 ps).all (fun g => (sgSet ps).contains g) &&
+  ps.ops.all (fun p => !(p.placeholder && p.ignored) || (p.inputs ++ p.intermediates).all (· == none))
+
+theorem sgDomain_of_B (ps : PSub) (h : sgDomainB ps = true) : SgDomain ps := by
+  unfold sgDomainB at h
+  simp only [Bool.and_eq_true, List.all_eq_true, List.contains_iff_mem, Bool.or_eq_true, Bool.not_eq_true', beq_iff_eq] at h
+  refine ⟨fun g hg => by simpa using h.1 g hg, ?_⟩
+  intro p hp hpl hig g hg
+  rcases h.2 p hp with h1 | h1
+  · simp [hpl, hig] at h1
+  · have := h1 _ hg
+    simp at this
+
+/-- the domain of `conforms_write`, as a checker: at least one subgraph is written (otherwise buffer 0 is the `vela_version`
+buffer), every subgraph output is a written tensor, Placeholders have no operands of their own -/
+def conformsDomainB (d : Desc) : Bool :=
+  !(subgraphsToWrite d).isEmpty &&
+  match (subgraphsToWrite d).mapM (prepSub d.tensors) with
+  | .ok subs => subs.all sgDomainB
+  | .error _ => true
+
+theorem forall₂_of_getElem? {α β : Type} (R : α → β → Prop) : ∀ (l₁ : List α) (l₂ : List β), l₁.length = l₂.length →
+    (∀ (i : Nat) a b, l₁[i]? = some a → l₂[i]? = some b → R a b) → List.Forall₂ R l₁ l₂
+  | [], [], _, _ => List.Forall₂.nil
+  | [], _ :: _, h, _ => by simp at h
+  | _ :: _, [], h, _ => by simp at h
+  | a :: l₁, b :: l₂, h, hf =>
+    List.Forall₂.cons (hf 0 a b rfl rfl) (forall₂_of_getElem? R l₁ l₂ (by simpa using h) (fun i a b ha hb => hf (i + 1) a b (by simpa using ha) (by simpa using hb)))
+
+/-- `conforms` accepts what `writeWith` produces, given the two parts proved elsewhere (file well-formedness, metadata) -/
+theorem conforms_writeWith (d : Desc) (enum : List Code) (m : ModelT) (h : writeWith d enum = .ok m)
+    (hd : conformsDomainB d = true)
+    (hwf : wellFormed m = [])
+    (hmeta : ∀ subs, (subgraphsToWrite d).mapM (prepSub d.tensors) = .ok subs → ∀ rels : List (Rel × Nat),
+      List.Forall₂ (fun (all : List Nat) (r : Rel × Nat) => r.2 = all.length ∧ ∀ p ∈ r.1, all[p.2]? = some p.1)
+        (subs.map (sgAll d.tensors)) rels → metadataProblems d m rels = []) :
+    conforms d m = [] := by
+  obtain ⟨subs, h1, hl, hfacts⟩ := write_sgFacts d enum m h
+  obtain ⟨_, opcodes, sgs, st, metas, _, _, _, _, hm⟩ := writeWith_ok d enum m h
+  have hdom : ∀ ps ∈ subs, SgDomain ps := by
+    unfold conformsDomainB at hd
+    simp only [h1, Bool.and_eq_true, List.all_eq_true] at hd
+    exact fun ps hps => sgDomain_of_B ps (hd.2 ps hps)
+  have hper : ∀ x ∈ (subs.zip m.subgraphs).zipIdx, (subgraphProblems d m x.2 x.1.1 x.1.2).2 = [] ∧
+      RelExpl (sgAll d.tensors x.1.1) (subgraphProblems d m x.2 x.1.1 x.1.2).1 ∧ x.1.2.tensors.length = (sgAll d.tensors x.1.1).length ∧
+      subs[x.2]? = some x.1.1 := by
+    intro x hx
+    obtain ⟨⟨ps, f⟩, k⟩ := x
+    have hz := List.mem_zipIdx_iff_getElem?.mp hx
+    obtain ⟨hzp, hzo⟩ := List.getElem?_zip_eq_some.mp hz
+    simp only at hzp hzo
+    have hF := hfacts k ps f hzp hzo
+    obtain ⟨a, b⟩ := subgraph_ok d m (sortCodes enum) k ps f hF (hdom ps (List.mem_of_getElem? hzp))
+    exact ⟨a, b, hF.tlen, hzp⟩
+  unfold conforms
+  simp only [h1]
+  have hhdr : m.fileId = WriterTbl.fileIdentifier ∧ m.version = WriterTbl.tfliteVersion ∧
+      m.description = some (descriptionOf d.version) := by
+    rw [hm]; exact ⟨rfl, rfl, rfl⟩
+  have e1 : (((subs.zip m.subgraphs).zipIdx.map fun (x : (PSub × SubGraphT) × Nat) =>
+      (subgraphProblems d m x.2 x.1.1 x.1.2, x.1.2.tensors.length)).flatMap (·.1.2)) = [] := by
+    rw [List.flatMap_eq_nil_iff]
+    intro y hy
+    obtain ⟨x, hx, rfl⟩ := List.mem_map.mp hy
+    exact (hper x hx).1
+  have e2 := hmeta subs h1 (((subs.zip m.subgraphs).zipIdx.map fun (x : (PSub × SubGraphT) × Nat) =>
+      (subgraphProblems d m x.2 x.1.1 x.1.2, x.1.2.tensors.length)).map fun x => (x.1.1, x.2)) (by
+    apply forall₂_of_getElem?
+    · simp [hl]
+    · intro i all r hall hr
+      simp only [List.getElem?_map, Option.map_eq_some_iff] at hall hr
+      obtain ⟨ps, hps, rfl⟩ := hall
+      obtain ⟨y, ⟨x, hx, rfl⟩, rfl⟩ := hr
+      have hxm : x ∈ (subs.zip m.subgraphs).zipIdx := List.mem_of_getElem? hx
+      obtain ⟨_, b, c, e⟩ := hper x hxm
+      have hxi : x.2 = i := by
+        rw [List.getElem?_zipIdx] at hx
+        obtain ⟨z, _, rfl⟩ := Option.map_eq_some_iff.mp hx
+        simp
+      rw [hxi, hps] at e
+      obtain rfl := Option.some.inj e
+      exact ⟨c, b⟩)
+  have e1' : (((subs.zip m.subgraphs).zipIdx.map fun x => match x with
+      | ((ps, f), k) => (subgraphProblems d m k ps f, f.tensors.length)).flatMap (·.1.2)) = [] := e1
+  rw [e1', hwf]
+  simp only [hhdr.1, hhdr.2.1, hhdr.2.2, hl]
+  simpa using e2
+
 end VelaVerif.Tflite.Spec
